@@ -37,6 +37,9 @@ OPS = ["+", "-", "*", "/", "**", "//", "==", "/=", "<", "<=", ">", ">="]
 OP_NAMES = [f"operator({o})" for o in OPS] + ["assignment(=)", "<em>unnamed</em>"]
 DOT_OPS = ["operator(.add.)", "operator(.lt.)", "operator(.x.)"]
 FILES = ["util.f90", "main.f90", "solver.F90", "a.f", "mod_foo.f90"]
+# characters a file name may contain besides letters/digits and that a "tidy the identifier" step could
+# drop or merge: near-miss variants of one file name differ in exactly such characters
+FILE_FILL = [" ", "-", "_", ".", ""]
 DIRS = ["proc", "module", "type", "interface", "sourcefile", "program", "blockdata", "namelist", None]
 # kind words (`obj`) of the entities that live in each page directory (a submodule has obj "submodule"
 # and get_dir() "module"; interface procedures are obj "proc" in "interface")
@@ -45,7 +48,7 @@ OBJS = {"proc": ["proc"], "module": ["module", "module", "submodule"], "type": [
         "blockdata": ["blockdata"], "namelist": ["namelist"]}
 NONE_OBJS = ["variable", "boundprocedure", "proc", "type", "interface", "common", "enum", "finalproc"]
 JUNK = ["foo~2", "foo~", "~", "__unnamed__", "__UNNAMED__", "operator(lt)", "operator(SLASH)", "a<b", "a/b",
-        "ltgt", "x*y", "SLASH", "asterisk", "operator (<)", "a b", "50%", "foo-2", "foo_2", "foo.2", "é"]
+        "ltgt", "x*y", "SLASH", "asterisk", "operator (<)", "operator ( lt )", "operator (/ /)", "a b", "50%", "foo-2", "foo_2", "foo.2", "é"]
 
 
 def spell(rng, s: str) -> str:
@@ -60,8 +63,27 @@ def spell(rng, s: str) -> str:
 
 
 IDENT_RE = re.compile(r"[A-Za-z][A-Za-z0-9_]*\Z")
-DOTOP_RE = re.compile(r"operator\(\.[a-z]+\.\)\Z", re.I)
-FILE_RE = re.compile(r"[A-Za-z0-9][A-Za-z0-9_.-]*\.[A-Za-z0-9]+\Z")
+# Fortran (free form) allows blanks between the tokens of a generic spec: `operator ( + )`, `assignment (=)`;
+# FORD keeps the text after `interface` verbatim as the entity's name
+DOTOP_RE = re.compile(r"operator *\( *\.[a-z]+\. *\)\Z", re.I)
+INTRINSIC_OP_RE = re.compile(r"(?:operator *\( *(?:\+|-|\*|/|\*\*|//|==|/=|<|<=|>|>=) *\)|assignment *\( *= *\))\Z", re.I)
+FILE_RE = re.compile(r"[A-Za-z0-9][A-Za-z0-9_. -]*\.[A-Za-z0-9]+\Z")
+
+
+def space_op(rng, name: str) -> str:
+    """Another legal spacing of a generic spec `kw(op)`: blanks after the keyword and inside the parentheses."""
+    m = re.match(r"(\w+)\((.*)\)\Z", name)
+    if not m:
+        return name
+    gap = lambda: " " * rng.choice([0, 0, 1, 1, 2])  # noqa: E731
+    return f"{m.group(1)}{gap()}({gap()}{m.group(2)}{gap()})"
+
+
+def near_file(rng, base: str) -> str:
+    """`my<fill>mod.f90`-style variants of one file name (the fill is a blank, -, _, . or nothing)."""
+    stem, ext = base.rsplit(".", 1)
+    cut = max(1, len(stem) // 2)
+    return stem[:cut] + rng.choice(FILE_FILL) + stem[cut:] + "." + ext
 
 
 def is_legal(name: str) -> bool:
@@ -71,7 +93,7 @@ def is_legal(name: str) -> bool:
     Every such name must satisfy the hypothesis `Legal cfg opNames` of the Lean theorems (checked on
     every run: if the generated literals make a Fortran-legal name illegal there, the tie is broken)."""
     return (name == "" or bool(IDENT_RE.match(name)) or bool(DOTOP_RE.match(name))
-            or name.lower() in OP_NAMES or bool(FILE_RE.match(name)))
+            or name.lower() in OP_NAMES or bool(INTRINSIC_OP_RE.match(name)) or bool(FILE_RE.match(name)))
 
 
 def gen_sequence(rng, legal: bool, case_clean: bool):
@@ -80,20 +102,33 @@ def gen_sequence(rng, legal: bool, case_clean: bool):
     pool_b = rng.sample(BASES, rng.randint(1, 3))
     fixed = {b: spell(rng, b) for b in BASES + OP_NAMES + DOT_OPS + FILES}
     dirs = rng.sample(DIRS, rng.randint(1, 3))
+    # the same operator / file in several spellings inside one sequence: small per-sequence pools
+    pool_op = rng.sample(OP_NAMES, rng.randint(1, 2))
+    pool_file = rng.sample(FILES, rng.randint(1, 2))
+    respace = rng.random() < 0.5
     ents = []
     for _ in range(nent):
         r = rng.random()
-        if r < 0.55:
+        spaced = None
+        if r < 0.50:
             b = rng.choice(pool_b)
         elif r < 0.70:
-            b = rng.choice(OP_NAMES)
+            b = rng.choice(pool_op if rng.random() < 0.7 else OP_NAMES)
+            if respace and "(" in b:
+                spaced = space_op
         elif r < 0.78:
             b = rng.choice(DOT_OPS)
-        elif r < 0.88:
+            if respace:
+                spaced = space_op
+        elif r < 0.86:
             b = ""
         else:
-            b = rng.choice(FILES)
+            b = rng.choice(pool_file)
+            if respace:
+                spaced = near_file
         name = fixed.get(b, b) if case_clean else spell(rng, b)
+        if spaced is not None:
+            name = spaced(rng, name)
         if not legal and rng.random() < 0.4:
             if rng.random() < 0.6:
                 name = rng.choice(JUNK)
@@ -275,7 +310,8 @@ def stream_selector(sf, drv, rng, n, variant, rep, cfg):
         aux[k] = a[1]
     hist = {"sequences": 0, "legal": 0, "case_clean": 0, "junk": 0, "entities": 0, "requests": 0,
             "repeat_requests": 0, "with_suffix": 0, "max_suffix": 0, "unnamed": 0, "operator": 0,
-            "case_only_pair": 0, "same_name_pair": 0, "dir_none": 0}
+            "case_only_pair": 0, "same_name_pair": 0, "dir_none": 0,
+            "fill_only_pair": 0, "spaced_operator": 0}
     distinct = set()
     bad = 0
     ofail = 0
@@ -295,7 +331,11 @@ def stream_selector(sf, drv, rng, n, variant, rep, cfg):
         sn = any(a[1] == b[1] for a, b in pairs)
         hist["case_only_pair"] += co
         hist["same_name_pair"] += sn
-        if co or sn:
+        sq = lambda x: re.sub(r"[ ._-]", "", x.lower())  # noqa: E731
+        bo = any(a[1].lower() != b[1].lower() and sq(a[1]) == sq(b[1]) for a, b in pairs)
+        hist["fill_only_pair"] += bo
+        hist["spaced_operator"] += any("(" in nm and " " in nm for _, nm, _ in ents)
+        if co or sn or bo:
             distinct.add(common.digest([ents, order]))
         case = {"stream": "c10a-sel", "entities": [list(e) for e in ents], "order": order, "legal": legal}
         if isinstance(res, tuple):
@@ -365,6 +405,39 @@ def gen_dir_sources(rng):
         "impl_" + rng.choice("ab"), "fin_x", n(), "ext_" + rng.choice("ab"), "extf", "absi_" + rng.choice("ab"),
         "msub", n(), n())
     op = rng.choice(["operator(+)", "operator(<)", "operator(/)", "operator(.dot.)", "OPERATOR(*)", "operator(==)"])
+    op_i = space_op(rng, op)  # the interface may be written in another spacing than the type-bound generic
+    # interface blocks of every shape (generic / plain / abstract, 0-3 bodies) in the second module
+    blocks = []
+    blk_lines = []
+    nblk = rng.randint(1, 4)
+    gen_ops = rng.sample(["operator(+)", "operator(<)", "operator(//)", "assignment(=)", "operator(.dot.)"], 2)
+    for bi in range(nblk):
+        shape = rng.choice(["generic", "generic", "plain", "abstract"])
+        nb = rng.choice([0, 1, 2, 2, 3])
+        if shape == "generic":
+            r = rng.random()
+            gname = f"gen{bi}" if r < 0.4 else (n() if r < 0.6 else space_op(rng, rng.choice(gen_ops)))
+            head, tail = f"  interface {gname}", "  end interface"
+        elif shape == "plain":
+            head, tail = "  interface", "  end interface"
+        else:
+            head, tail = "  abstract interface", "  end interface"
+        blk_lines.append(head)
+        if shape == "generic":
+            blk_lines.append(f"    !! generic block {bi}")
+            if nb == 0 or rng.random() < 0.4:
+                blk_lines.append("    module procedure blk_mp")
+        for j in range(nb):
+            bn = f"blk{bi}_{j}" if rng.random() < 0.7 else f"{rng.choice(BASES)}_b{bi}{j}"
+            if rng.random() < 0.5:
+                blk_lines += [f"    subroutine {bn}(a, b)", "      integer :: a", f"      {['integer', 'real', 'logical', 'complex'][j]} :: b",
+                              f"    end subroutine {bn}"]
+            else:
+                blk_lines += [f"    function {bn}(a, b) result(r)", "      integer :: a", f"      {['integer', 'real', 'logical', 'complex'][j]} :: b",
+                              "      integer :: r", f"    end function {bn}"]
+        blk_lines.append(tail)
+        blocks.append({"named": shape == "generic", "abstract": shape == "abstract", "bodies": nb})
+    blk_text = "\n".join(blk_lines)
     unnamed_bd = rng.random() < 0.5
     unnamed_prog = rng.random() < 0.5
     mod = f"""module {m1}
@@ -385,8 +458,13 @@ def gen_dir_sources(rng):
     subroutine body_in_gen(a, b)
       integer :: a, b
     end subroutine body_in_gen
+    function body2_in_gen(a) result(r)
+      !! a second interface body of the same generic
+      real :: a
+      integer :: r
+    end function body2_in_gen
   end interface {p_gen}
-  interface {op}
+  interface {op_i}
     module procedure opf2
   end interface
   interface
@@ -486,7 +564,11 @@ end submodule
   type {t}
     real :: x
   end type
+{blk_text}
 contains
+  subroutine blk_mp(q)
+    character(len=*) :: q
+  end subroutine blk_mp
   subroutine {p_impl}(self, cb)
     type({t}) :: self
     interface
@@ -551,7 +633,7 @@ end block data
              "main.f90": prog, "c/" + rng.choice(["top.f90", "util.f90", "Main.f90"]): top}
     if rng.random() < 0.5:
         files["extra.inc"] = "! just text\n"
-    return files
+    return files, {"module": m2, "blocks": blocks}
 
 
 def walk_entities(sf, roots):
@@ -577,10 +659,12 @@ def stream_dirs(ford, sf, drv, rng, n, variant, rep, workdir):
     from ford.fortran_project import Project
     from ford.settings import ProjectSettings
 
+    from .c10_e2e import entity_oracle
+
     stats = {"projects": 0, "entities": 0, "bad": 0, "kinds": {}, "dirs": {}, "requests": 0, "borrowed": 0,
-             "unmapped": {}}
+             "unmapped": {}, "blocks": {}, "block_entities": 0, "oracle_fail": 0, "oracle_pairs": 0}
     for k in range(n):
-        files = gen_dir_sources(rng)
+        files, plan = gen_dir_sources(rng)
         root = workdir / f"d{k}"
         for rel, body in files.items():
             p = root / "src" / rel
@@ -620,6 +704,14 @@ def stream_dirs(ford, sf, drv, rng, n, variant, rep, workdir):
                     named = bool(e.name)
                     obs.append((e, kind, pk, pg, named, e.obj, e.get_dir()))
                 idents = [(e, e.ident) for e, *_ in obs if isinstance(getattr(e, "name", None), str)]
+                # interface entities of the block module: (generic, number of procedure children)
+                blk_mod = [m for m in project.modules if m.name == plan["module"]]
+                blk_seen = []
+                for m in blk_mod:
+                    for it in list(m.interfaces) + list(m.absinterfaces):
+                        kids = [x for x in ents if isinstance(x, sf.FortranProcedure) and x.parent is it]
+                        blk_seen.append((bool(it.generic), len(kids)))
+                ofails, npairs = entity_oracle(sf, ents)
         except BaseException as ex:  # noqa
             stats["bad"] += 1
             rep.tie_broken(f"c10a-dir: the implementation failed on a generated project: {type(ex).__name__}: {ex}",
@@ -628,6 +720,25 @@ def stream_dirs(ford, sf, drv, rng, n, variant, rep, workdir):
         finally:
             sf.NameSelector.get_name = orig
         stats["projects"] += 1
+        # property oracle on the entities of the real project (before anything is rendered)
+        stats["oracle_pairs"] += npairs
+        for f in ofails:
+            stats["oracle_fail"] += 1
+            rep.failing_input({"stream": "c10a-dir", "oracle": "entity: " + f["oracle"], "why": f["why"],
+                               "names": f["names"], "files": files}, classify_names(*f["names"][:2]))
+        # interface blocks: which interface entities exist and how many procedures hang below each
+        want = []
+        for b in plan["blocks"]:
+            a = drv.batch([["c10.block", "1" if b["named"] else "0", "1" if b["abstract"] else "0", str(b["bodies"])]])[0]
+            sig = ("generic" if b["named"] else "abstract" if b["abstract"] else "plain") + f":{b['bodies']}"
+            stats["blocks"][sig] = stats["blocks"].get(sig, 0) + 1
+            want += [(a[i] == "1", int(a[i + 1])) for i in range(1, len(a) - 1, 2)]
+        stats["block_entities"] += len(blk_seen)
+        if len(blk_mod) != 1 or sorted(want) != sorted(blk_seen):
+            stats["bad"] += 1
+            rep.tie_broken(f"correspondence c10a-dir: interface blocks {plan['blocks']} of module {plan['module']}: "
+                           f"implementation keeps (generic, children) {sorted(blk_seen)}, model {sorted(want)}",
+                           {"stream": "c10a-dir", "files": files})
         ans = drv.batch([["c10.dir", kind, pk or "-", "1" if pg else "0", "1" if named else "0"]
                          for _, kind, pk, pg, named, _, _ in obs])
         borrow = {}
@@ -673,6 +784,30 @@ def stream_dirs(ford, sf, drv, rng, n, variant, rep, workdir):
                                f"{stem_of.get(id(target))!r}", {"stream": "c10a-dir", "files": files})
                 break
     return stats
+
+
+def replay_dir_case(sf, rep, files: dict, root: Path):
+    """Re-evaluate the entity-level oracle on the project of a stored c10a-dir case."""
+    from ford.fortran_project import Project
+    from ford.settings import ProjectSettings
+    from .c10_e2e import entity_oracle
+
+    for rel, body in files.items():
+        p = root / "src" / rel
+        p.parent.mkdir(parents=True, exist_ok=True)
+        p.write_text(body)
+    sf.namelist = sf.NameSelector()
+    with common.quiet():
+        settings = ProjectSettings(src_dir=[root / "src"], preprocess=False, warn=False, dbg=True,
+                                   extra_filetypes=[{"extension": "inc", "comment": "!"}] if "extra.inc" in files else [],
+                                   display=["public", "private", "protected"])
+        project = Project(settings)
+        project.correlate()
+        ents = walk_entities(sf, list(project.files) + list(project.extra_files))
+        ofails, _ = entity_oracle(sf, ents)
+    for f in ofails:
+        rep.failing_input({"stream": "c10a-dir", "oracle": "entity: " + f["oracle"], "why": f["why"],
+                           "names": f["names"], "files": files, "replayed": True}, classify_names(*f["names"][:2]))
 
 
 # ------------------------------------------------------------------ main
@@ -727,6 +862,16 @@ def run(tier: str, seed: int, replay: str | None = None) -> int:
     e2e_stats = {}
     with common.scratch_dir() as d:
         dirs = stream_dirs(ford, sf, drv, rng, n_dir, variant, rep, d)
+        seen_dir_cases = set()
+        for c in (replay_cases or []):
+            if c.get("stream") == "c10a-dir" and isinstance(c.get("files"), dict):
+                dg = common.digest(c["files"])
+                if dg not in seen_dir_cases:
+                    seen_dir_cases.add(dg)
+                    try:
+                        replay_dir_case(sf, rep, c["files"], d / f"rd{len(seen_dir_cases)}")
+                    except Exception as ex:  # the stored project no longer parses: report, do not crash
+                        rep.tie_broken(f"c10a-dir replay: {type(ex).__name__}: {ex}", {"stream": "c10a-dir", "files": c["files"]})
         try:
             from . import c10_e2e
         except ImportError as e:  # pragma: no cover
@@ -755,8 +900,8 @@ def run(tier: str, seed: int, replay: str | None = None) -> int:
         distinct_nontrivial=len(sel["distinct"]),
         rule="c10a-sel: one evaluation = one request sequence (1-8 entities, 1-3 directories, repeated requests) "
              "run on the real NameSelector through ident/anchor/get_url and on the model; non-trivial = at least two "
-             "entities of one directory have equal names or names equal up to case (the numbering mechanism is "
-             "reached); distinct by digest of (entities, order). c10a-dir: one evaluation = one real entity object "
+             "entities of one directory have equal names, names equal up to case, or names equal up to blanks/-/_/. "
+             "(the numbering mechanism, or the step after it, is reached); distinct by digest of (entities, order). c10a-dir: one evaluation = one real entity object "
              "(obj, get_dir, ident). c10b: one evaluation = one generated site run end-to-end.",
         samples=(sel["samples"] + e2e_stats.get("samples", []))[:4],
         traces_validated_against_impl=sel["n"] + dirs["projects"] + e2e_stats.get("sites", 0),
@@ -771,8 +916,8 @@ def run(tier: str, seed: int, replay: str | None = None) -> int:
     rep.assumptions += [
         "names are ASCII (lower() and urllib quote are modelled on ASCII input)",
         "the file system is case-sensitive (Linux); page files that differ only in letter case are distinct files",
-        "operator names are spelled without blanks (operator(+)); blanks inside the parentheses are kept verbatim "
-        "by FORD and give distinct names",
+        "generic specs are spelled with blanks between their tokens only (operator ( + )), as free source form "
+        "requires; FORD keeps the spelling verbatim and treats different spacings as different names",
         "Jinja templates are not modelled: which items appear on a page, and with which id attribute, is observed "
         "on the written site only (stream c10b)",
     ]
